@@ -23,6 +23,14 @@ def with_re(v, src, ty):
     return out
 
 
+def field_compatible(ty):
+    while not ty.is_float:
+        if ty.struct not in ('Dual', 'Dual2', 'DualVec', 'Dual2Vec'):
+            return False
+        ty = ty.inner
+    return True
+
+
 def ulps(a, b):
     def key(x):
         return x if x < (1 << 63) else (1 << 63) - x
@@ -84,6 +92,10 @@ class Prop(BaseProp):
 
     def oracle(self, case, impl):
         if case.tag != 'A':
+            return None
+        if case.op == 'eq' and not field_compatible(case.ty):
+            # the property speaks of == only on the four field-compatible types; the derived PartialEq of Dual3, HyperDual*,
+            # HyperHyperDual compares all fields by design (documented, not flagged)
             return None
         rb = self.impl_results[case.id + 'b']
         rf = self.impl_results[case.id + 'f']
